@@ -97,6 +97,17 @@ for m2 in re.finditer(r'// Policy name: (\S+)\n// Rules: (\d+)', pol):
     if actual != int(m2.group(2)):
         counts.append({'what': 'Rules of policy %s' % m2.group(1), 'stated': int(m2.group(2)), 'actual': actual})
 zt = [l.strip() for l in open(os.path.join(pydir, 'zones.txt')) if l.strip() and not l.startswith('#')]
+# per policy: numRules and numLetters stated in the ZonePolicy record against the entries of its rule and letter arrays
+for m4 in re.finditer(r'const \w+::ZonePolicy kPolicy(\w+) ACE_TIME_PROGMEM = \{\s*(\w+) /\*rules\*/,\s*(\w+) /\* letters \*/,\s*(\d+) /\*numRules\*/,\s*(\d+) /\* numLetters \*/', pol):
+    pname, rarr, larr, nr, nl = m4.group(1), m4.group(2), m4.group(3), int(m4.group(4)), int(m4.group(5))
+    mr = re.search(r'%s\[\] ACE_TIME_PROGMEM = \{(.*?)\n\};' % re.escape(rarr), pol, re.S)
+    if mr:
+        counts.append({'what': 'numRules of policy %s' % pname, 'stated': nr, 'actual': len(re.findall(r'/\*fromYearTiny\*/', mr.group(1)))})
+    if larr != 'nullptr':
+        ml = re.search(r'%s\[\] ACE_TIME_PROGMEM = \{(.*?)\n\};' % re.escape(larr), pol, re.S)
+        counts.append({'what': 'numLetters of policy %s' % pname, 'stated': nl, 'actual': len(re.findall(r'/\*\d+\*/ "', ml.group(1))) if ml else -1})
+    else:
+        counts.append({'what': 'numLetters of policy %s' % pname, 'stated': nl, 'actual': 0})
 print(json.dumps({'emitted': res['emitted_zones'], 'zones_txt': zt, 'names': names + ['policy:' + p for p in pnames],
                   'py_digests': [digest(py_infos.get(n)) for n in names] + [digest(py_pol.get(n)) for n in pnames],
                   'inmem_digests': [digest(in_infos.get(n)) for n in names] + [digest(in_pol.get(n)) for n in pnames],
